@@ -256,9 +256,48 @@ type SendSite struct {
 	InSelect    bool
 	NonBlocking bool // select has a default
 	SelIndex    int
+	Via         *ssa.Function // non-nil: the send happens in this helper, called at Instr
 }
 
 func SendSites(fn *ssa.Function) []SendSite {
+	out := directSendSites(fn)
+	// one level of helper: a call of a function of the same package that sends one of its
+	// parameters on another of its parameters (e.g. an extracted non-blocking hand-off)
+	// is a send site of the caller, with the arguments in the helper's roles
+	ssax.Instrs(fn, func(in ssa.Instruction) {
+		c, ok := in.(*ssa.Call)
+		if !ok {
+			return
+		}
+		g := c.Call.StaticCallee()
+		if g == nil || g == fn || g.Pkg != fn.Pkg || len(g.Blocks) == 0 {
+			return
+		}
+		for _, hs := range directSendSites(g) {
+			ci, xi := paramIndexOf(g, hs.Chan), paramIndexOf(g, hs.X)
+			if ci < 0 || xi < 0 || ci >= len(c.Call.Args) || xi >= len(c.Call.Args) {
+				continue
+			}
+			out = append(out, SendSite{Fn: fn, Instr: in, Chan: c.Call.Args[ci], X: c.Call.Args[xi], InSelect: hs.InSelect, NonBlocking: hs.NonBlocking, SelIndex: hs.SelIndex, Via: g})
+		}
+	})
+	return out
+}
+
+func paramIndexOf(fn *ssa.Function, v ssa.Value) int {
+	v = ssax.Strip(v)
+	if cv, ok := v.(*ssa.ChangeType); ok {
+		v = ssax.Strip(cv.X)
+	}
+	for i, p := range fn.Params {
+		if ssa.Value(p) == v {
+			return i
+		}
+	}
+	return -1
+}
+
+func directSendSites(fn *ssa.Function) []SendSite {
 	var out []SendSite
 	ssax.Instrs(fn, func(in ssa.Instruction) {
 		switch x := in.(type) {
